@@ -151,12 +151,14 @@ def run_check(prop, tier, seed, replay=None, update_baseline=False):
             record_violation(r, 'real function disagrees with the executable specification', unlisted)
 
     unproved = refuted + undecided
+    excused = []
     for r in unproved:
         fail = find_failing_input(r, xres)
         if r['kind'] == 'vacuity':
             crashes.append((r['obligation'], ('vacuity', 'vacuity guard failed: %s' % r['obligation'], '')))
             continue
         if fail is not None and match_known(known, prop, fail) is not None:
+            excused.append((r, match_known(known, prop, fail)))
             continue
         if r['verdict'] == 'refuted' or r['contract'] in base_prop:
             why = 'obligation refuted by the solver' if r['verdict'] == 'refuted' else \
@@ -179,8 +181,14 @@ def run_check(prop, tier, seed, replay=None, update_baseline=False):
     if crashes:
         exit_code = 3 if exit_code != 1 else 1
 
-    n_ob = len([r for r in all_results])
+    # obligations of a function for which a listed known finding has a failing input are reported apart:
+    # they are not discharged and not counted (the finding's input class is the carve-out)
+    n_ob = len([r for r in all_results]) - len(excused)
     n_dis = len(proved)
+    for (r, k) in excused:
+        assumptions.add('CARVE-OUT known finding %s: obligation %s is not discharged (function %s has the listed failing '
+                        'input; any other violation in that function would also be masked for this obligation)'
+                        % (k['id'], r['obligation'], r.get('qual')))
     ev = {
         'property_id': prop, 'tier': tier, 'seed': seed, 'level': 'proof',
         'coverage': {
@@ -195,6 +203,8 @@ def run_check(prop, tier, seed, replay=None, update_baseline=False):
             'crashes': [{'task': str(k), 'reason': e[1]} for k, e in crashes],
             'bounded': xres,
             'known_findings_hit': [k['id'] for k, _ in known_hit],
+            'obligations_excused_by_known_findings': [{'obligation': r['obligation'], 'finding': k['id'], 'verdict': r['verdict']}
+                                                      for (r, k) in excused],
             'not_built': REG.not_built_for(prop),
             'samples': [{'obligation': r['obligation'], 'kind': r['kind'], 'verdict': r['verdict'],
                          'backend': r['backend'], 's': r['s']} for r in all_results[:12]],
@@ -221,7 +231,8 @@ def run_check(prop, tier, seed, replay=None, update_baseline=False):
         print('  undecided: %s (%s)' % (r['obligation'], r.get('reason')))
 
     if update_baseline and exit_code == 0:
-        names = sorted(set(r['contract'] for r in all_results))
+        bad_tasks = set(r['contract'] for r in all_results if r['verdict'] != 'proved')
+        names = sorted(set(r['contract'] for r in all_results) - bad_tasks)
         baseline[prop] = {'tasks': names, 'obligations': len(proved)}
         with open(os.path.join(HERE, 'baseline_obligations.json'), 'w') as f:
             json.dump(baseline, f, indent=0, sort_keys=True)
